@@ -534,6 +534,31 @@ def lookup(ctx):
     R.floor("LOOKUP", 2)
 
 
+def _separator_evidence(ctx, idiom):
+    """ATTR, weak form for predicates the slice-comparison rule does not follow (`strip_suffix`, `rsplit`, ...): a namespaced
+    key is `<prefix>:<name>`, so whatever accepts it must look at the separator — some function or closure reachable from
+    attr_opt mentions the byte / char ':' or a byte string / str containing it.  A necessary condition only (which byte is
+    compared with it is not decided); a predicate with no ':' in it accepts `OID` for `ID`."""
+    import json
+    F, R = ctx.facts, ctx.report
+    reach = set(ctx.cg.local_reachable([ATTR])) | {ATTR}
+    seen, n = [], 0
+    for q, qb in F.bodies.items():
+        if qb.get("derived") or not (q in reach or any(q.startswith(r + "::{closure") for r in reach)):
+            continue
+        n += 1
+        txt = json.dumps([qb["blocks"], qb.get("promoted")])   # `Some(&b':')` is a promoted constant of the body
+        sw = any(blk["term"].get("k") == "switch" and 58 in (blk["term"].get("vals") or []) and F.ty_s(blk["term"].get("dty")) in ("u8", "char") for blk in qb["blocks"])   # a pattern `Some(&b':')`
+        if sw or re.search(r'"int": 58[,}]', txt) or re.search(r'"str": "[^"]*:[^"]*"', txt) or re.search(r'"bytes": \[[^\]]*\b58\b[^\]]*\]', txt):
+            seen.append(q)
+    if seen:
+        R.obligation("ATTR", ATTR + "|separator", "discharged", "the ':' separator is mentioned in %s (predicate written with %s: which byte it is compared with is not decided)" % (", ".join(seen[:3]), idiom))
+        R.instance("ATTR", "separator evidence (%s form)" % idiom)
+    else:
+        b = F.body(ATTR)
+        R.violation("ATTR", ATTR + "|separator", "attr_opt matches keys by %s but none of the %d function(s)/closure(s) it reaches mentions the namespace separator ':' — a key that merely ends with the name (e.g. OID for ID) is accepted" % (idiom, n), function=ATTR, file=b["span"]["f"], line=b["span"]["l"])
+
+
 def attr(ctx):
     """attr_opt: an attribute is accepted iff key == name, or len(key) > len(name) and key[len(key)-len(name)-1] == ':'
     and key[len(key)-len(name)..] == name."""
@@ -549,6 +574,7 @@ def attr(ctx):
         for bi, f_, sp, how in all_fn_refs(qb):
             if re.search(r"::(strip_suffix|strip_prefix|rsplit|rsplitn|rsplit_once|split_last|rposition|rfind)(::<.*>)?$", f_["path"]) and "slice" in f_["path"]:
                 R.notes.append("ATTR not decided: the attribute-matching predicate uses %s, which the rule does not express as slice comparisons" % f_["path"].split("::")[-1])
+                _separator_evidence(ctx, f_["path"].split("::")[-1])
                 return
     eng = Engine(F)
     eng.key_all = True
